@@ -44,6 +44,7 @@ fn main() {
     "o20_1_alloc_drop_string" => c_alloc_drop_string(n(2)),
     "o20_1_alloc_drop_tuple" => c_alloc_drop_tuple(n(2)),
     "o20_1_alloc_drop_list" => c_alloc_drop_list(n(2), n(3)),
+    "o20_1_alloc_drop_instance_block" => c_alloc_drop_instance_block(n(2) as usize),
     "o20_1_alloc_drop_instance" => c_alloc_drop_instance(n(2)),
     "o20_3_unique_vector_handle" => c_unique_vector_handle(n(2), n(3)),
     "o20_3_shared_vector_handle" => c_shared_vector_handle(n(2), n(3)),
